@@ -437,6 +437,8 @@ pub fn gen_c12(rng: &mut Rng, tier: Tier) -> NetProgram {
         let restart = *rng.pick(&[-1i64, -1, 0, 0, 250_000_000]);
         prog.modules[v].start_acts = vec![Act::Shutdown { restart, at: rng.chance(1, 2) }];
     }
+    // the application inside the simulation may itself report an error at the end: the modules are torn down all the same
+    prog.inner_end_err = rng.chance(1, 15);
     // an ordinary handler panic somewhere: tear-down still happens once for every module
     if nmod >= 2 && rng.chance(1, 8) {
         let v = rng.usize(nmod);
